@@ -4,7 +4,8 @@
    random X-Forwarded-For lists of up to 4 entries, random route, targets drawn from a small pool so that
    the file cache fills up by itself) and logs what it did and saw:
      ev = "cfg"   a server was started with (mode, list, cache); dual = it listens on "::" and is reached
-                  by IPv4 clients (which it sees in IPv4-mapped form)
+                  by IPv4 clients (which it sees in IPv4-mapped form); lm = the IPv4 entries of its list
+                  file are written in IPv4-mapped form.  Every record carries `v4`, the IPv4 addresses it names
      ev = "conn"  a client connected from `peer`
      ev = "req"   request n on that connection: X-Forwarded-For (present, es), route type, uri ->
                   res (result class seen by the client), fromCache (content was older than the file on disk)
@@ -14,8 +15,7 @@
    contents evolve as Srv_InnerFile / Srv_*_CacheCheck say.  Results that are allowed but differ from the
    model of the repaired code, and cache observations that differ from the model's cache, are counted and
    reported, not rejected (they are outside what C19 states).  A rejected record that is exactly what a
-   single historical deviation (ForbiddenTrustsXff, XffUntrimmed) predicts is listed under `attributed`
-   with that deviation's name so that the driver can match it against KNOWN_FINDINGS.txt. *)
+   single named deviation predicts is listed under `attributed` with the names of those deviations so that the driver can match it against KNOWN_FINDINGS.txt. *)
 EXTENDS Naturals, Sequences, FiniteSets, TLC, Json, IOUtils
 
 Rec == ndJsonDeserialize(IOEnv.TRACE)
@@ -28,27 +28,27 @@ TraceGarbage == UNION { { Rec[i].es[j].a : j \in { j \in 1..Len(Rec[i].es) : Rec
 VARIABLES l, cfg, cached, c, conn, bad, attributed, nattr, lenient, cachediv, nreq
 tvars == <<l, cfg, cached, c, conn, bad, attributed, nattr, lenient, cachediv, nreq>>
 
-B == INSTANCE Blacklist WITH Addrs <- TraceAddrs, Peers <- TraceAddrs, DualStackPeers <- {}, Garbage <- TraceGarbage,
+TraceV4 == UNION { RangeOf(Rec[i].v4) : i \in 1..Len(Rec) }       \* the IPv4 addresses of the log
+
+B == INSTANCE Blacklist WITH Addrs <- TraceAddrs, Peers <- TraceAddrs, V4Addrs <- TraceV4, Duals <- BOOLEAN,
+                             ListForms <- BOOLEAN, Garbage <- TraceGarbage,
                              Lists <- {}, MaxXff <- 0, Uris <- {}, Conns <- {1}, Dev <- {}
-\* the same operators for a server started on a dual-stack address: every IPv4 peer arrives in mapped form
-BD == INSTANCE Blacklist WITH Addrs <- TraceAddrs, Peers <- TraceAddrs, DualStackPeers <- TraceAddrs, Garbage <- TraceGarbage,
-                              Lists <- {}, MaxXff <- 0, Uris <- {}, Conns <- {1}, Dev <- {}
 
 NoConn == [open |-> FALSE, peer |-> "", n |-> 0]
 
 Init == /\ l = 1
-        /\ cfg = [mode |-> "block", list |-> {}, cache |-> FALSE, dual |-> FALSE]
+        /\ cfg = [mode |-> "block", list |-> {}, cache |-> FALSE, dual |-> FALSE, lm |-> FALSE]
         /\ cached = {}
         /\ c = [k \in {1} |-> B!Fresh]          \* (unused; Blacklist's variable)
         /\ conn = NoConn
         /\ bad = <<>> /\ attributed = <<>> /\ nattr = 0 /\ lenient = 0 /\ cachediv = 0 /\ nreq = 0
 
 Cap == 60
-Reject == IF Len(bad) >= Cap THEN bad ELSE Append(bad, [line |-> l, dev |-> "", allowed |-> {}])
+Reject == IF Len(bad) >= Cap THEN bad ELSE Append(bad, [line |-> l, dev |-> {}, allowed |-> {}])
 
 Step(r) ==
   CASE r.ev = "cfg" ->
-         /\ cfg' = [mode |-> r.mode, list |-> RangeOf(r.list), cache |-> r.cache, dual |-> r.dual]
+         /\ cfg' = [mode |-> r.mode, list |-> RangeOf(r.list), cache |-> r.cache, dual |-> r.dual, lm |-> r.lm]
          /\ cached' = {} /\ conn' = NoConn
          /\ UNCHANGED <<bad, attributed, nattr, lenient, cachediv, nreq>>
     [] r.ev = "conn" ->
@@ -71,11 +71,10 @@ Step(r) ==
              hit     == cfg.cache /\ warm                          \* Srv_*_CacheCheck
              \* a rejected record that is exactly what one historical deviation alone predicts
              expl    == IF wellformed /\ (r.res = "Dropped" => conn.n = 0)
-                        THEN { d \in B!HistoricalDevs :
-                                 (IF cfg.dual THEN BD!Model({d}, cfg, conn.peer, x, r.rt, warm)
-                                              ELSE B!Model({d}, cfg, conn.peer, x, r.rt, warm)) = r.res }
+                        THEN { d \in B!HistoricalDevs \cup {"MappedListEntryUnmatched"} :
+                                   B!Model({d}, cfg, conn.peer, x, r.rt, warm) = r.res }
                         ELSE {}
-             entry   == [line |-> l, dev |-> (IF expl = {} THEN "" ELSE CHOOSE d \in expl : TRUE), allowed |-> allowed]
+             entry   == [line |-> l, dev |-> expl, allowed |-> allowed]
          IN /\ bad' = IF ok \/ expl # {} \/ Len(bad) >= Cap THEN bad ELSE Append(bad, entry)
             /\ attributed' = IF ok \/ expl = {} \/ Len(attributed) >= Cap THEN attributed ELSE Append(attributed, entry)
             /\ nattr' = IF ~ok /\ expl # {} THEN nattr + 1 ELSE nattr
